@@ -537,7 +537,22 @@ static bool mi_segment_purge(mi_segment_t* segment, uint8_t* p, size_t size) {
     // purging
     mi_assert_internal((void*)start != (void*)segment);
     mi_assert_internal(segment->allow_decommit);
-    const bool decommitted = _mi_os_purge(start, full_size);  // reset or decommit
+    bool decommitted = false;
+    if (mi_option_is_enabled(mi_option_purge_decommits) || mi_commit_mask_all_set(&segment->commit_mask, &mask)) {
+      decommitted = _mi_os_purge(start, full_size);  // reset or decommit
+    }
+    else {
+      // purging by reset, and the range is only partially committed: only reset the committed parts
+      // (a reset may touch the memory, e.g. the debug fill in `_mi_os_reset`, and uncommitted memory is not accessible)
+      mi_commit_mask_t cmask;
+      mi_commit_mask_create_intersect(&segment->commit_mask, &mask, &cmask);
+      size_t idx;
+      size_t count;
+      mi_commit_mask_foreach(&cmask, idx, count) {
+        _mi_os_purge((uint8_t*)segment + (idx * MI_COMMIT_SIZE), count * MI_COMMIT_SIZE);
+      }
+      mi_commit_mask_foreach_end()
+    }
     if (decommitted) {
       mi_commit_mask_t cmask;
       mi_commit_mask_create_intersect(&segment->commit_mask, &mask, &cmask);
